@@ -73,7 +73,7 @@ def judge(ctx, cases, tag):
     jobs = []
     for k, i in enumerate(range(0, len(cases), per)):
         part = cases[i:i + per]
-        t = tag if len(cases) <= per else "%s%d" % (tag, k)
+        t = tag if len(cases) <= per else "%s-c%d" % (tag, k)   # ("-c": never the name of another family)
         ctx.cases_by_tag[t] = {c["id"]: c for c in part}
         jobs.append((k, t, ctx.run_exec("lists", part, t)))
 
